@@ -46,11 +46,40 @@ JOBQUEUE = {
 }
 
 # ---------------------------------------------------------------- JobLife
+def _jl_hcfg(**kw):
+    """harness options (drivers.JLOpts) realising the constants of a JobLife_Sim_*.cfg"""
+    c = {"N": 2, "Par": True, "MaxAtt": 2, "Delay": 1, "Strategy": "AllSuccessful", "JobPT": 2, "CfgPT": -1, "JobTTL": 2, "CfgTTL": -1,
+         "CfgFD": 2, "Forbid": False, "Foreign": False, "PodLagFree": True}
+    c.update(kw)
+    return c
+
+
+JL_SIMS = {
+    "a": _jl_hcfg(),
+    "b": _jl_hcfg(Strategy="AnySuccessful"),
+    "c": _jl_hcfg(N=1, MaxAtt=3, Foreign=True),
+    "d": _jl_hcfg(Forbid=True, JobPT=0),
+    "e": _jl_hcfg(),
+}
+
+
+def _jl_sims(num):
+    return [{"module": "JobLife_Sim.tla", "cfg": "JobLife_Sim_%s.cfg" % k, "num": num, "depth": 48, "harness_cfg": v, "timeout": 600}
+            for k, v in sorted(JL_SIMS.items())]
+
+
+def _jl_design(names, timeout):
+    return [{"module": "JobLife_MC.tla", "cfg": "JobLife_MC_%s.cfg" % n, "timeout": timeout} for n in names]
+
+
 JOBLIFE = {
     "name": "joblife",
     "vh": "joblife",
-    "design": {"quick": [], "thorough": []},
-    "sim": {"quick": [], "thorough": []},
+    "design": {
+        "quick": _jl_design(["core", "foreign", "crash", "ext"], 600),
+        "thorough": _jl_design(["core", "kill0", "kill1", "fault", "del", "ext", "crash", "any2", "all2", "foreign", "forbid", "lagq"], 2400),
+    },
+    "sim": {"quick": _jl_sims(12), "thorough": _jl_sims(400)},
     "harness": {
         "quick": [
             {"name": "random-fresh", "args": ["joblife", "-mode", "random", "-seed", "{seed}", "-runs", "600", "-steps", "120", "-fresh"]},
